@@ -3,6 +3,9 @@ from ..common import Report
 from ..corpus import load, load_kf, load_repo_tests, load_repo_examples
 from ..docgen import load_repo_docs
 from ..crossgen import load_cross
+from ..modgen import load_modseq
+from ..common import CheckError
+from ..wrules import last_seg, impl_methods
 from ..wrules import check_trait_forwarding, check_implblock, check_inversion_traits
 
 
@@ -12,6 +15,8 @@ def run(tier):
     programs = 0
     loaded = [(cfg, load(rep, "pos", cfg)) for cfg in configs]
     loaded += [(cfg, load_cross(rep, cfg, tier)) for cfg in configs]
+    # script-enumerated impl-block item sequences (vlib/modgen.py)
+    loaded.append(("plain", load_modseq(rep, "plain", tier)))
     if tier == "thorough":
         loaded.append(("unimock_test", load_repo_tests(rep)))
         loaded += [("unimock_test", ld) for ld in load_repo_examples(rep)]
@@ -23,12 +28,23 @@ def run(tier):
                 check_inversion_traits(rep, ld.crate, exp, v, cfg)
                 programs += 1
             elif exp.mode == "impl":
-                check_implblock(rep, ld.crate, exp, cfg)
+                v = check_implblock(rep, ld.crate, exp, cfg)
                 programs += 1
+                gen_wants = getattr(ld.crate, "modseq_wants", None)
+                if gen_wants is not None and v.trait_impls:
+                    i = int(last_seg(exp.module)[1:])
+                    have = [last_seg(o["path"]) for o in v.originals]
+                    if sorted(have) != sorted(gen_wants[i]):
+                        raise CheckError("modgen: generator expects functions %s in impl block of %s but rustc's item tree says %s" % (gen_wants[i], exp.module, have))
+                    got = sorted(impl_methods(ld.crate, v.trait_impls[0]))
+                    rep.count("impl_block_sequences_checked")
+                    if got != sorted(gen_wants[i]):
+                        rep.add("R-METHODS", exp.ident() + " seq-methods", "trait impl methods %s differ from the block's functions %s" % (got, sorted(gen_wants[i])), where=exp.label())
     # generic entraited traits with a delegation target (known finding, witness/kf)
     load_kf(rep, {"c07_generic_target": "a generic entraited trait with a static delegation target expands to code naming `TraitImpl<T>` without the trait's own generic arguments",
                   "c07_generic_target_ref": "a generic entraited trait with `delegate_by = ref` and a delegation target expands to code naming `dyn TraitImpl<T>` without the trait's own generic arguments"})
     rep.floor("generated_methods_checked", 30)
+    rep.floor("impl_block_sequences_checked", 200)
     rep.coverage.update({"programs": programs,
                          "disagreements_checked": rep.counters.get("generated_methods_checked", 0),
                          "explanation": "R-DELEG for the front half (projection / dyn adapter) and the back half (inherent function of the same block), R-PRED on both impls, shape of the generated TraitImpl<T> and Selector<T> traits",
